@@ -641,6 +641,18 @@ func ProvisionalName(expr *Expr, m *Model) string {
 }
 
 func appendSetName(ts *TokenSet, m *Model, out *strings.Builder) {
+	appendSetNameRec(ts, m, out, nil)
+}
+
+// appendSetNameRec keeps track of the sets being named: named sets can refer to each other.
+func appendSetNameRec(ts *TokenSet, m *Model, out *strings.Builder, path []*TokenSet) {
+	for _, p := range path {
+		if p == ts {
+			out.WriteString("rec")
+			return
+		}
+	}
+	path = append(path, ts)
 	switch ts.Kind {
 	case Any:
 		out.WriteString(m.Ref(ts.Symbol, nil /*args*/))
@@ -658,7 +670,7 @@ func appendSetName(ts *TokenSet, m *Model, out *strings.Builder) {
 		out.WriteString(m.Ref(ts.Symbol, nil /*args*/))
 	case Complement:
 		out.WriteString("not_")
-		appendSetName(ts.Sub[0], m, out)
+		appendSetNameRec(ts.Sub[0], m, out, path)
 	case Union, Intersection:
 		for i, sub := range ts.Sub {
 			if i > 0 {
@@ -668,7 +680,7 @@ func appendSetName(ts *TokenSet, m *Model, out *strings.Builder) {
 					out.WriteString("_")
 				}
 			}
-			appendSetName(sub, m, out)
+			appendSetNameRec(sub, m, out, path)
 		}
 	default:
 		log.Fatalf("cannot compute name for TokenSet Kind=%v", ts.Kind)
